@@ -1,5 +1,3 @@
-from typing import cast
-
 from bloqade.geometry.dialects import grid
 from kirin import decl, ir, lowering, types
 from kirin.decl import info
@@ -27,7 +25,13 @@ class Measure(ir.Statement):
 
         for grid_ssa in grids:
             grid_type = grid_ssa.type
-            if (grid_type := cast(types.Generic, grid_type)).is_subseteq(grid.GridType):
+            # a value annotated with the bare class (`z: grid.Grid`) is a grid too, but its
+            # type carries no size parameters to read
+            if (
+                isinstance(grid_type, types.Generic)
+                and grid_type.is_subseteq(grid.GridType)
+                and len(grid_type.vars) == 2
+            ):
                 NumX, NumY = grid_type.vars
             else:
                 NumX, NumY = types.Any, types.Any
